@@ -141,7 +141,22 @@ func (P *Prog) VerifyAll(keys []string, opts VerifyOpts, solv *Solvers) []*FuncR
 	return results
 }
 
+// KnownFailing reports whether an obligation name is listed as a known finding (set by cmdCheck).
+var KnownFailing func(name string) bool
+
 func SolveAll(all []*Obligation, solv *Solvers) {
+	t0 := time.Now()
+	defer func() {
+		if os.Getenv("GOVC_TIMING") != "" {
+			fmt.Fprintf(os.Stderr, "SolveAll total %.1fs\n", time.Since(t0).Seconds())
+		}
+	}()
+	tick := func(what string) {
+		if os.Getenv("GOVC_TIMING") != "" {
+			fmt.Fprintf(os.Stderr, "  [%.1fs] %s\n", time.Since(t0).Seconds(), what)
+		}
+	}
+	_ = tick
 	var todo []*Obligation
 	var wg sync.WaitGroup
 	sem := make(chan struct{}, 16)
@@ -160,6 +175,7 @@ func SolveAll(all []*Obligation, solv *Solvers) {
 		}(o)
 	}
 	wg.Wait()
+	tick("queries built")
 	var qs, ps []string
 	var qi, pi []int
 	for i, o := range todo {
@@ -180,8 +196,13 @@ func SolveAll(all []*Obligation, solv *Solvers) {
 		// counterexample is not pursued on its remaining paths (they would mostly time out)
 		perName := map[string]int{}
 		var first, rest []int
+		var expectedFail []int
 		for k, i := range qi {
 			n := todo[i].Name
+			if KnownFailing != nil && KnownFailing(n) {
+				expectedFail = append(expectedFail, k)
+				continue
+			}
 			perName[n]++
 			if perName[n] <= 3 {
 				first = append(first, k)
@@ -199,6 +220,7 @@ func SolveAll(all []*Obligation, solv *Solvers) {
 			}
 		}
 		sub(first)
+		tick("first round solved")
 		failedName := map[string]bool{}
 		for _, k := range first {
 			if rs[qi[k]].Result != "unsat" {
@@ -213,7 +235,86 @@ func SolveAll(all []*Obligation, solv *Solvers) {
 			}
 			rest2 = append(rest2, k)
 		}
-		sub(rest2)
+		var wgk sync.WaitGroup
+		wgk.Add(1)
+		go func() {
+			defer wgk.Done()
+			sub(rest2)
+			tick("rest solved")
+		}()
+		// obligations listed as known findings: one counterexample (or timeout) confirms the finding;
+		// queries are tried in small rounds, later ranks first, and the rest is skipped
+		if len(expectedFail) > 0 {
+			by := map[string][]int{}
+			var ns []string
+			for _, k := range expectedFail {
+				n := todo[qi[k]].Name
+				if _, ok := by[n]; !ok {
+					ns = append(ns, n)
+				}
+				by[n] = append(by[n], k)
+			}
+			done := map[string]bool{}
+			at := map[string]int{}
+			for {
+				var batch []int
+				for _, n := range ns {
+					if done[n] {
+						continue
+					}
+					ks := by[n]
+					for c := 0; c < 6 && at[n] < len(ks); c++ {
+						batch = append(batch, ks[len(ks)-1-at[n]])
+						at[n]++
+					}
+				}
+				if len(batch) == 0 {
+					break
+				}
+				sub(batch)
+				for _, k := range batch {
+					if rs[qi[k]].Result != "unsat" {
+						done[todo[qi[k]].Name] = true
+					}
+				}
+			}
+			for _, n := range ns {
+				ks := by[n]
+				for j := at[n]; j < len(ks); j++ {
+					rs[qi[ks[len(ks)-1-j]]] = solverResult{Result: "skipped", Solver: "-"}
+				}
+			}
+		}
+		tick("known-failing rounds done")
+		wgk.Wait()
+		// last resort for the few queries still undecided (typically timeouts under load): retry with
+		// a long timeout, few at a time
+		var retry []int
+		for _, k := range append(append([]int(nil), first...), rest2...) {
+			if rs[qi[k]].Result == "unknown" {
+				retry = append(retry, k)
+			}
+		}
+		if len(retry) > 0 && len(retry) <= 40 {
+			old := solv.timeout
+			solv.timeout = 4 * old
+			sem2 := make(chan struct{}, 4)
+			var w3 sync.WaitGroup
+			for _, k := range retry {
+				w3.Add(1)
+				go func(k int) {
+					defer w3.Done()
+					sem2 <- struct{}{}
+					defer func() { <-sem2 }()
+					r := solv.Solve(qs[k], false)
+					if r.Result != "unknown" {
+						rs[qi[k]] = r
+					}
+				}(k)
+			}
+			w3.Wait()
+			solv.timeout = old
+		}
 	}()
 	go func() {
 		defer wg2.Done()
@@ -270,6 +371,7 @@ func SolveAll(all []*Obligation, solv *Solvers) {
 				}
 			}
 		}
+		tick("probes done")
 		for _, n := range names {
 			if settled[n] {
 				for _, k := range byName[n][pos[n]:] {
